@@ -201,6 +201,13 @@ def battery(focus=None):
                   ('rotate', A), ('flush',), ('major_compact', A), ('check',)]
     P['tiny-memtable'] = [('ks', A, 'memtable=64'), ('insert', A, k1, '31' * 30), ('insert', A, k2, '32' * 30), ('insert', A, k3, '33' * 30), ('flush',), ('check',),
                           ('remove', A, k2), ('insert', A, k4, '34' * 30), ('flush',), ('check',)]
+    # a recovered keyspace must behave like a freshly created one: clear / ingestion / flush right after a reopen, then scans vs. point reads
+    P['reopened-clear'] = [('ks', A), ('ks', B), ('insert', A, k1, '31'), ('insert', A, k2, '32'), ('insert', B, k1, '41'), ('reopen',), ('clear', A), ('check',), ('insert', A, k3, '33'), ('check',),
+                           ('reopen',), ('insert', B, k2, '42'), ('rotate', B), ('flush',), ('clear', B), ('check',)]
+    P['reopened-ingest'] = [('ks', A), ('insert', A, k1, '31'), ('reopen',), ('ingest', A, [(k2, '32'), (k3, '33')]), ('check',), ('insert', A, k2, '3232'), ('remove', A, k3), ('check',),
+                            ('rotate', A), ('flush',), ('major_compact', A), ('check',), ('reopen',), ('check',)]
+    P['reopened-flush'] = [('ks', A), ('ks', B), ('insert', A, k1, '31'), ('insert', B, k1, '41'), ('reopen',), ('insert', A, k2, '32'), ('rotate', A), ('flush',), ('check',),
+                           ('batch', [('insert', A, k3, '33'), ('remove', B, k1), ('insert', B, k2, '42')]), ('check',), ('insert', A, k1, '3131'), ('rotate', A), ('flush',), ('major_compact', A), ('check',)]
     if focus:
         return {n: p for n, p in P.items() if focus in n} or P
     return P
